@@ -53,6 +53,7 @@ func Register(r *mc.Registry, prop string, cases []Case, covered map[string][]st
 		"arities":              arities(r.Thorough()),
 		"operand_vectors":      "every vector over {success_i, failure_i} (Option/Try/Either/StateT) resp. {[], [v], [v w]} (Seq/List/Iterator) resp. every constructor (Eval, fn0, fn1) at every operand position",
 		"callback_letters":     map[string]int{"option": KLOption, "try": KLTry, "either": KLEither, "statet": KLStatet, "seq": KLSeq, "list": KLList, "iterator": KLIterator, "lazy": KLEval, "fn0": KLFn0, "fn1": KLFn1},
+		"error_families":       "Try/StateT positions and callbacks fail, per execution, with the private sentinels e_i or (one family per rotation) with the library's own errors: fp.ErrOptionEmpty built by try.Failure, fp.ErrOptionEmpty built by try.FromOption(option.None()), fp.ErrTryNotFailed, fp.ErrFutureNotFailed, a distinct fp.Error(404, \"Option.empty\") look-alike, and fmt.Errorf(\"%w\", fp.ErrOptionEmpty); over the rotations every position fails with every one of them",
 		"traverse_elements":    "0..3 elements (thorough: 0..4), every subset of elements on which the function fails",
 		"compositions":         "every expression tree of depth <= 2 over {operand, Map, Replace, LiftM, Flatten.Map, Map2, Ap.Map, FlatMap2, Map.Zip} per generated package (thorough: plus every unary node on top of such a tree), every failing subset of its operands, every letter of its callbacks",
 		"initial_states":       States,
